@@ -72,7 +72,7 @@ pub struct Plan {
 
 pub struct StoreSim;
 
-fn gen_steps(rng: &mut Rng, ctx: &GenCtx, n_keys: usize, n_steps: usize, plan_kind: &str) -> Vec<Step> {
+fn gen_steps(rng: &mut Rng, ctx: &GenCtx, n_keys: usize, n_steps: usize, plan_kind: &str, with_cleanup: bool) -> Vec<Step> {
     // swarm style: draw the weights of this run first
     let fault = ctx.mode == "fault";
     let w_put = rng.range(15, 40);
@@ -85,6 +85,9 @@ fn gen_steps(rng: &mut Rng, ctx: &GenCtx, n_keys: usize, n_steps: usize, plan_ki
     let w_diskerr = if fault && plan_kind != "C10" { rng.range(1, 5) } else { 0 };
     let (w_range, w_cleanup, w_pay, w_metrics) = if plan_kind == "C10" {
         (rng.range(1, 5), rng.range(0, 3), rng.range(1, 6), rng.range(2, 8))
+    } else if with_cleanup {
+        // C01 over a store big enough for the periodic clean-up to apply: a cleaned-up key is a removed key
+        (rng.range(3, 8), rng.range(3, 8), 0, 0)
     } else {
         (0, 0, 0, 0)
     };
@@ -233,6 +236,9 @@ impl Sim for StoreSim {
         let (capacity, filler) = match (kind, ctx.mode.as_str()) {
             ("C10", "threshold") => (*rng.pick(&[1700usize, 1638, 1640, 3000]), rng.urange(1630, 1640)),
             ("C10", _) => (rng.urange(2, 8), 0),
+            // C01: one run in eighty holds enough records for the periodic clean-up to apply (ranges and clean-ups are
+            // part of those plans: a cleaned-up key is a removed key)
+            ("C01", _) if rng.chance(1, 80) => (3000, rng.urange(1634, 1640)),
             // C02: in a fifth of the runs the store can hold exactly as many records as the plan has keys, so a
             // restart can find it filled to capacity
             ("C02", _) if rng.chance(1, 5) => (n_keys, 0),
@@ -246,7 +252,7 @@ impl Sim for StoreSim {
             ("C02", Tier::Thorough) => u32::MAX,
             _ => 0,
         };
-        let mut steps = gen_steps(rng, ctx, n_keys, n_steps, kind);
+        let mut steps = gen_steps(rng, ctx, n_keys, n_steps, kind, kind == "C01" && filler > 0);
         // C02, a tenth of the runs: the node is moved between networks (ids of one, two or three digits)
         let mut net0 = 0u8;
         if kind == "C02" && rng.chance(1, 10) {
